@@ -68,11 +68,14 @@ def _get_tag_text(tag: Element) -> str:
     return ''
 
 
+_UNSET = object()
+
+
 class MosElement:
     """
     Abstract base class for MOS elements
     """
-    def __init__(self, xml: Element, *, id: Optional[str] = None, slug: Optional[str] = None):
+    def __init__(self, xml: Element, *, id: Optional[str] = _UNSET, slug: Optional[str] = None):
         self._xml = xml
         self._id = id
         self._slug = slug
@@ -104,7 +107,10 @@ class MosElement:
         """
         The element ID (if present in the XML)
         """
-        if self._id is None:
+        if self._id is _UNSET:
+            # only look in the XML when no ID was given explicitly: an explicit
+            # None is the text of a blank ID tag and must not turn into the
+            # first ID found in the element
             try:
                 self._id = self.xml.find(self._id_tag).text
             except AttributeError:
@@ -131,7 +137,7 @@ class Item(MosElement):
     exposed as properties, and the XML element is provided for further
     introspection.
     """
-    def __init__(self, xml: Element, *, id: Optional[str] = None, slug: Optional[str] = None):
+    def __init__(self, xml: Element, *, id: Optional[str] = _UNSET, slug: Optional[str] = None):
         super().__init__(xml, id=id, slug=slug)
         self._id_tag = 'itemID'
         self._slug_tag = 'itemSlug'
@@ -201,7 +207,7 @@ class Story(MosElement):
     def __init__(self,
         xml: Element,
         *,
-        id: Optional[str] = None,
+        id: Optional[str] = _UNSET,
         slug: Optional[str] = None,
         duration: Optional[float] = None,
         unknown_items: bool = False,
